@@ -269,16 +269,20 @@ def _cut_reduction(prefix=""):
 
 
 def replay_eci(d):
+    """Positions and velocities judged separately and relative to their own scale (a velocity error of 1e-7 km/s is 1e-11 of a position in km but
+    1e-8 of an orbital velocity): 1e-11 relative, four orders above the round-off of the double-precision round trip."""
     from resonaate.physics.transforms import methods as T
 
     t = _dt.datetime(2019, 7, 3, 11, 13, 17)
-    x, y = np.array(d["x"]), np.array(d["y"])
-    sc = max(1.0, np.abs(x).max(), np.abs(y).max())
-    e1 = np.abs(T.ecef2eci(T.eci2ecef(x, t), t) - x).max()
-    e2 = np.abs(T.eci2ecef(T.ecef2eci(x, t), t) - x).max()
-    e3 = abs(np.linalg.norm(T.eci2ecef(x, t)[:3]) - np.linalg.norm(x[:3]))
-    e4 = abs(np.linalg.norm((T.eci2ecef(x, t) - T.eci2ecef(y, t))[:3]) - np.linalg.norm((x - y)[:3]))
-    return max(e1, e2, e3, e4) > 1e-8 * sc, {"ecef2eci(eci2ecef)": e1, "eci2ecef(ecef2eci)": e2, "norm": e3, "relative": e4}
+    x, y = np.array(d["x"], dtype=float), np.array(d["y"], dtype=float)
+    om = 7.292115e-5
+    sr = max(1.0, np.abs(x[:3]).max(), np.abs(y[:3]).max())
+    sv = max(1e-3, np.abs(x[3:]).max(), om * np.abs(x[:3]).max())
+    a, b = T.ecef2eci(T.eci2ecef(x, t), t) - x, T.eci2ecef(T.ecef2eci(x, t), t) - x
+    e1, e2 = max(np.abs(a[:3]).max() / sr, np.abs(a[3:]).max() / sv), max(np.abs(b[:3]).max() / sr, np.abs(b[3:]).max() / sv)
+    e3 = abs(np.linalg.norm(T.eci2ecef(x, t)[:3]) - np.linalg.norm(x[:3])) / sr
+    e4 = abs(np.linalg.norm((T.eci2ecef(x, t) - T.eci2ecef(y, t))[:3]) - np.linalg.norm((x - y)[:3])) / sr
+    return max(e1, e2, e3, e4) > 1e-11, {"ecef2eci(eci2ecef) (relative)": e1, "eci2ecef(ecef2eci) (relative)": e2, "norm (relative)": e3, "relative position (relative)": e4}
 
 
 def o4b_eci(rep):
